@@ -6,7 +6,7 @@
 // name, with SchemaQualifier ∈ {nil, "", "custom_q"} × every plan mode. Every planned statement and every
 // reverse statement is tokenized by the monitor's own lexer (tok.go) and judged by the rules in
 // oracle.go; plan-level rules (multi-schema and schema-level change sets must be rejected under the
-// empty qualifier) are judged here.
+// empty qualifier) are judged here. reuse.go drives sequences of calls on one migrate.Planner.
 package c16
 
 import (
@@ -115,6 +115,12 @@ type Case struct {
 	// hand: name of a hand-assembled change set (hand.go); hcl: name of a document pair.
 	Hand string `json:"hand,omitempty"`
 
+	// Pair (realm): class of the schema-name pair (hand.go pairs) used instead of marker / other.
+	Pair string `json:"pair,omitempty"`
+
+	// Seq (reuse): operations driven on ONE migrate.Planner value (reuse.go).
+	Seq []Op `json:"seq,omitempty"`
+
 	// Hostile is the class of the extra custom qualifier this scenario is planned with.
 	Hostile string `json:"hostile,omitempty"`
 
@@ -148,6 +154,7 @@ type meta struct {
 	ModifySch    bool     // contains ModifySchema
 	Kinds        []string // change kinds (evidence)
 	TableChanges int
+	Pair         string // class of the schema-name pair of the scenario ("" = marker / other)
 }
 
 func (m meta) schemaLevel() bool { return m.AddDropSch || m.ModifySch }
@@ -383,12 +390,19 @@ func prepare(cs Case) (*prepared, error) {
 			return ch, u, err
 		}}, nil
 	case "realm":
+		if _, ok := pairs[cs.Pair]; cs.Pair != "" && !ok {
+			return nil, fmt.Errorf("no schema-name pair %q", cs.Pair)
+		}
 		return &prepared{fresh: func() ([]schema.Change, *universe, error) {
-			u := newUniverse(marker)
+			n1, n2 := marker, other
+			if cs.Pair != "" {
+				n1, n2 = pairs[cs.Pair][0], pairs[cs.Pair][1]
+			}
+			u := newUniverse(n1)
 			mk := func(mf, of []string, oAbsent bool) *schema.Realm {
-				ss := []*schema.Schema{ownSchema(cs.Dialect, marker, "", mkFlags(mf), false)}
+				ss := []*schema.Schema{ownSchema(cs.Dialect, n1, "", mkFlags(mf), false)}
 				if !oAbsent {
-					ss = append(ss, ownSchema(cs.Dialect, other, "_o", mkFlags(of), false))
+					ss = append(ss, ownSchema(cs.Dialect, n2, "_o", mkFlags(of), false))
 				}
 				for _, s := range ss {
 					u.add(s)
@@ -454,6 +468,12 @@ func doPlan(d string, changes []schema.Change, qual, mode string) *planResult {
 		res.Panic, res.Stack = fmt.Sprint(val), st
 		return res
 	}
+	return toResult(plan, err)
+}
+
+// toResult records the statements (and reverse statements) of a plan.
+func toResult(plan *migrate.Plan, err error) *planResult {
+	res := &planResult{}
 	if err != nil {
 		res.Err = err.Error()
 		return res
@@ -552,6 +572,10 @@ func judge(d, qual, mode string, m meta, u *universe, res, nilRes *planResult, s
 		}
 		if multi {
 			if planned {
+				if m.Pair != "" {
+					// own key per class of name pair (never merged with the object-only sets of F3)
+					kinds = "names=" + m.Pair
+				}
 				v.viol = append(v.viol, violation{spre + "multi-schema-planned|" + kinds, fmt.Sprintf("a change set spanning the schemas %v was planned with the %s qualifier instead of being rejected", m.Schemas, base), map[string]any{"plan": res.text()}})
 			} else {
 				v.trivial = true
@@ -608,6 +632,8 @@ func judge(d, qual, mode string, m meta, u *universe, res, nilRes *planResult, s
 	}
 	return v
 }
+
+func res0(qual string) bool { return qual != "nil" }
 
 func topKinds(m meta) []string {
 	var out []string
@@ -666,6 +692,10 @@ func runCase(a *acct, cs Case, verbose bool) {
 		}
 	}()
 	count := func(k string, d int64) { cnt[k] += d }
+	if cs.Src == "reuse" {
+		runReuse(a, cs, verbose)
+		return
+	}
 	p, err := prepare(cs)
 	if err != nil {
 		c.Inconclusive("prepare")
@@ -710,6 +740,16 @@ func runCase(a *acct, cs Case, verbose bool) {
 				continue
 			}
 			m := classify(changes)
+			m.Pair = cs.Pair
+			if cs.Src == "hand" {
+				m.Pair = hands[cs.Hand].pair
+			}
+			if m.Pair != "" {
+				count("pair:"+cs.Dialect+":"+qbase(qual)+":"+m.Pair, 1)
+				if len(m.Schemas) > 1 && res0(qual) {
+					count("pair-multi:"+cs.Dialect+":"+m.Pair, 1)
+				}
+			}
 			if len(changes) == 0 {
 				count("empty-changeset:"+cs.Dialect, 1)
 				continue
@@ -830,6 +870,24 @@ func run(c *rt.Ctx) {
 			}
 		}
 	}
+	for _, d := range []string{"mysql", "postgres"} {
+		for _, pn := range pairNames() {
+			if a.get("pair-multi:"+d+":"+pn) < 10 {
+				fmt.Fprintf(os.Stderr, "c16: too few two-schema change sets over the name pair %s observed for %s\n", pn, d)
+				ok = false
+			}
+		}
+		if a.get("reuse:modify-schema-rejected-after-checkpoint:"+d) < 10 {
+			fmt.Fprintf(os.Stderr, "c16: planner reuse: too few ModifySchema plans after a checkpoint on the same Planner observed for %s\n", d)
+			ok = false
+		}
+		for _, q := range quals {
+			if a.get("reuse:later-op:"+d+":"+q) < 100 {
+				fmt.Fprintf(os.Stderr, "c16: planner reuse: too few calls on a used Planner for %s/%s\n", d, q)
+				ok = false
+			}
+		}
+	}
 	if ev, ood := a.get("evals"), a.get("ood"); ev == 0 || ood*100 > ev*35 {
 		fmt.Fprintf(os.Stderr, "c16: out-of-domain share too high: %d of %d\n", ood, ev)
 		ok = false
@@ -841,6 +899,6 @@ func run(c *rt.Ctx) {
 	for k, v := range a.matrix.m {
 		full[k] = v
 	}
-	c.Finish("every Plan.Changes[i].Cmd and every reverse statement of mysql/postgres DefaultPlan.PlanChanges, on change sets of the real differs (shared dmodel pool: create-all, drop-all, exhaustive single-edit neighbourhood in both directions, seeded walks; the monitor's own flag-built family with enums, enum arrays, serial/identity, index comments, sibling/self FKs; realm diffs over two schemas; hand-assembled two-schema / Add-Drop-ModifySchema / rename sets; HCL documents), qualifier ∈ {nil, \"\", custom_q} × mode ∈ {unset, in-place, deferred, dump, unsorted dump}, tokenized by the monitor's lexer: \"\" ⇒ schema marker absent from the text, no CREATE/DROP/ALTER SCHEMA|DATABASE / COMMENT ON SCHEMA, references unqualified, multi-schema / AddSchema / DropSchema / ModifySchema(mode unset|deferred) sets rejected; custom ⇒ every table / enum type / top-level index reference written custom_q.name and marker absent; nil ⇒ every such reference written schema.name; a one-schema set planned with nil must not be rejected with \"\"/custom. ModifySchema in place = out_of_domain. distinct = distinct (dialect, qualifier, plan text incl. reverse statements); non-trivial = at least one statement",
+	c.Finish("every Plan.Changes[i].Cmd and every reverse statement of mysql/postgres DefaultPlan.PlanChanges, on change sets of the real differs (shared dmodel pool: create-all, drop-all, exhaustive single-edit neighbourhood in both directions, seeded walks; the monitor's own flag-built family with enums, enum arrays, serial/identity, index comments, sibling/self FKs; realm diffs over two schemas; hand-assembled two-schema / Add-Drop-ModifySchema / rename sets, the two-schema sets and realm diffs again over pairs of schema names that differ only in letter case (ASCII, Latin-1, KELVIN SIGN, LONG S), Unicode normal form, a suffix, the last character or a trailing blank; HCL documents; and sequences of Plan / PlanSchema / Checkpoint / CheckpointSchema (+ WritePlan / WriteCheckpoint) on ONE migrate.Planner over the real differ and planner — all ordered pairs of 12 calls, longer fixed orders, seeded sequences — every result judged by the same rules under the qualifier and mode the Planner was constructed with and compared with the same call on an unused Planner), qualifier ∈ {nil, \"\", custom_q} × mode ∈ {unset, in-place, deferred, dump, unsorted dump}, tokenized by the monitor's lexer: \"\" ⇒ schema marker absent from the text, no CREATE/DROP/ALTER SCHEMA|DATABASE / COMMENT ON SCHEMA, references unqualified, multi-schema / AddSchema / DropSchema / ModifySchema(mode unset|deferred) sets rejected; custom ⇒ every table / enum type / top-level index reference written custom_q.name and marker absent; nil ⇒ every such reference written schema.name; a one-schema set planned with nil must not be rejected with \"\"/custom. ModifySchema in place = out_of_domain. distinct = distinct (dialect, qualifier, plan text incl. reverse statements); non-trivial = at least one statement",
 		map[string]any{"matrix_dialect_qualifier_mode_kind": full, "scenarios": len(cases), "marker": marker, "qualifier": customQ})
 }
